@@ -974,12 +974,12 @@ theorem refStep_sig (f : Frame) (stack : List Frame) (pos : Nat) (t : PToken) (r
       split at h
       · cases h
       · injection h with h; injection h with h1 h2; subst h1; subst h2
-        have hat := attach_inorderSig Table.gen q _ d pos f.cur
-        refine ⟨.other, Or.inr (Or.inr hat.2), hs, rfl, ?_⟩
-        have hsig := hat.1
-        simp only [c5, Bool.false_eq_true, if_false] at hsig
+        have hat := fun rtl => attach_inorderSig Table.gen q rtl d pos f.cur
+        refine ⟨.other, Or.inr (Or.inr (hat _).2), hs, rfl, ?_⟩
+        have hsig : ∀ rtl, (attach Table.gen q rtl d pos f.cur).inorderSig = f.cur.inorderSig ++ [pos] := by
+          intro rtl; rw [(hat rtl).1]; simp [c5]
         simp only
-        rw [pending_append f.ctx f.cur _ [pos] stack hsig]
+        rw [pending_append f.ctx f.cur _ [pos] stack (hsig _)]
         simp [significantScan, c1, c2, c3, c4]
 
 theorem refLoop_sig : ∀ (toks : List PToken) (f : Frame) (stack : List Frame) (pos : Nat) (t : RTree) (prev : PrevTok),
